@@ -18,7 +18,7 @@
      Flagged f1 f2 ms g i   exists k m, |i-k| <= g /\ ms[k] = m /\ (Z.land m f1 <> 0 \/ Z.land m f2 <> 0) *)
 From Coq Require Import ZArith QArith List Bool.
 Import ListNotations.
-From PV Require Import C17.Model C17.ProofsDilate C17.ProofsReject C17.ProofsInterp C17.ProofsMedian C17.ProofsSky.
+From PV Require Import C17.Model C17.ProofsDilate C17.ProofsReject C17.ProofsInterp C17.ProofsAxis C17.ProofsMedian C17.ProofsSky.
 Open Scope Q_scope.
 
 (* ================================================================ dilation *)
@@ -200,6 +200,24 @@ Theorem C17_none_good_identity : forall (ys : list Q) (mask : list bool), length
   exists v, nth_error (maskinterp1_model ys mask None) i = Some v /\ v == y.
 Proof. exact none_good_identity. Qed.
 Print Assumptions C17_none_good_identity.
+
+(* maskinterp_axis: on an n-D array (flat list + the index lists of its lines along the chosen axis) the loop
+   ynew[line] = djs_maskinterp1(yval[line], mask[line], xval[line]) acts independently on every line:
+   each line of the output is the 1-D result for that line of the input -- for M and for S -- and the 1-D
+   theorems above then apply line by line.  Hypotheses: the lines are disjoint index lists inside the array. *)
+Theorem C17_maskinterp_axis : forall (ys : list Q) (mask : list bool) (xval : option (list Q)) (lines : list (list nat)) (line : list nat),
+  NoDup (concat lines) -> (forall k, In k (concat lines) -> (k < length ys)%nat) -> In line lines ->
+  gather 0 (maskinterp_nd_model ys mask xval lines) line
+  = maskinterp1_model (gather 0 ys line) (gather false mask line) (option_map (fun xs => gather 0 xs line) xval).
+Proof. exact maskinterp_axis_model. Qed.
+Print Assumptions C17_maskinterp_axis.
+
+Theorem C17_maskinterp_axis_S : forall (ys : list Q) (mask : list bool) (xval : option (list Q)) (lines : list (list nat)) (line : list nat),
+  NoDup (concat lines) -> (forall k, In k (concat lines) -> (k < length ys)%nat) -> In line lines ->
+  gather 0 (maskinterp_nd_spec ys mask xval lines) line
+  = maskinterp1_spec (gather 0 ys line) (gather false mask line) (option_map (fun xs => gather 0 xs line) xval).
+Proof. exact maskinterp_axis_spec. Qed.
+Print Assumptions C17_maskinterp_axis_S.
 
 (* ================================================================ aesthetics *)
 
